@@ -4,6 +4,7 @@ import (
 	"bytes"
 	"fmt"
 	"math/big"
+	"strings"
 	"sync"
 	"testing"
 	"time"
@@ -222,6 +223,15 @@ func TestKeygen(t *testing.T) {
 			}
 		}
 		kg := rapid.SampledFrom(keygens).Draw(t, "keygen")
+		// a tail of larger parties counts (threshold structures, the cheaper key generations): per-peer
+		// loops, buffers and coefficient vectors are only stressed past a handful of parties
+		if !disordered && rapid.IntRange(0, 15).Draw(t, "bigN") == 0 {
+			n := rapid.SampledFrom([]int{8, 9, 10}).Draw(t, "bigNn")
+			p = &policy.Policy{Family: policy.Threshold, N: n, T: rapid.IntRange(2, n).Draw(t, "bigT")}
+			regime = rapid.SampledFrom([]string{policy.Ordinal, policy.Sparse, policy.Large}).Draw(t, "bigRegime")
+			ids = policy.DrawIDs(t, p, regime)
+			kg = rapid.SampledFrom([]keygenKind{keygens[0], keygens[1], keygens[4]}).Draw(t, "bigKeygen")
+		}
 		ctxSeed := rapid.Uint64().Draw(t, "ctxSeed")
 		seeds := map[proto.ID]uint64{}
 		for i, id := range proto.ToIDs(ids) {
@@ -240,10 +250,21 @@ func TestKeygen(t *testing.T) {
 
 		// independence: the key never repeats across the campaign
 		seenMu.Lock()
+		// the run is identified by everything that determines it: rapid re-executes a failing case
+		// while shrinking, and an identical run legitimately gives the identical key
+		// Two runs on the SAME random tapes legitimately give the same key (rapid re-executes a
+		// failing case while shrinking; two dealer runs whose drawn tape seed coincides - rapid is
+		// biased towards small values - sample the same secret): only runs on different tapes must
+		// differ. The dealer's tape is named by ctxSeed alone, a DKG's by its label and every party's seed
+		// (PartyPRNG also mixes the party's identifier in).
+		tape := fmt.Sprintf("dealer ctx=%d", ctxSeed)
+		if kg.name != "dealer" {
+			tape = fmt.Sprintf("dkg %s seeds=%v", kg.name, seeds) // the session seed does not feed the parties' tapes
+		}
 		prev, dup := seenPKs[string(pk)]
-		seenPKs[string(pk)] = what
+		seenPKs[string(pk)] = tape + " (" + what + ")"
 		seenMu.Unlock()
-		if dup && !vlib.Replaying() {
+		if dup && !strings.HasPrefix(prev, tape+" (") && !vlib.Replaying() {
 			t.Fatalf("public key of run %s repeats the key of run %s", what, prev)
 		}
 		// changing one party's randomness changes the key (DKGs), everything else fixed
